@@ -1,6 +1,8 @@
 """C20 — network streaming delivers the exact sequence, then ends, for every interleaving (lock-step REQ/REP model)."""
 import dataclasses
+import decimal
 import enum
+import fractions
 import pickle
 import numpy as np
 import sys
@@ -208,6 +210,19 @@ def run_once(elems, chooser, reuse=False):
                         res['received'].append(next(stream))
                     except StopIteration:
                         res['receiver_ended'] = True
+                        # a stream that has ended stays ended: asked again (clean-up code, a second list(stream)) it says so at once,
+                        # without touching the network
+                        n_ev = len(sched.events)
+                        try:
+                            next(stream)
+                            res['after_end'] = 'a value'
+                        except StopIteration:
+                            res['after_end'] = 'stop'
+                        except Deadlock:
+                            res['after_end'] = 'blocked on the network'
+                        except Exception as e:  # noqa
+                            res['after_end'] = repr(e)
+                        res['after_end_events'] = list(sched.events[n_ev:])
                         break
             except Deadlock:
                 pass
@@ -252,6 +267,10 @@ def judge(ctx, elems_desc, elems, res, case, model_line):
         ctx.fail('network-stream-not-delivered', 'sent %s, received %d elements (%s), receiver ended=%s, sender returned=%s' % (
             elems_desc, len(res['received']), [show(x)[:20] for x in res['received']], res['receiver_ended'], res['sender_returned']), case)
         return
+    if res.get('after_end', 'stop') != 'stop' or res.get('after_end_events'):
+        ctx.fail('receiver-restarts-after-end', 'asked again after its end the receiver gave %s (network activity: %s)' % (
+            res.get('after_end'), res.get('after_end_events')), case)
+        return
     draws = reqs = 0
     for e in ev:
         if e == 'sDraw':
@@ -293,6 +312,9 @@ ELEMS = [Reading(3, 2.5), Colour.BLUE, Reading, pipelib.Sulky(4),
          None, (None, None), (0, None), (None, 1), 0, '', [], b'next', ('u', 1), {'status': None}, 1.5, [None], False,
          # exception OBJECTS are ordinary elements (results collected with return_exceptions-style code): handed on, never raised
          ValueError('as an element'), KeyError(1), OSError(2, 'msg'), StopIteration('as an element')]
+# elements that are EQUAL (and hash alike) without being the same: each arrives as what it is
+TWINS = [0.0, -0.0, (1, 2), (True, 2.0), (1.0, 2), decimal.Decimal('1.0'), decimal.Decimal('1.00'), (fractions.Fraction(1, 2), 0), (0.5, False), 1, True, 1.0]
+ELEMS = ELEMS + TWINS
 
 
 def check(ctx):
@@ -303,6 +325,10 @@ def check(ctx):
         n = rng.choice([0, 1, 2, 3, 5, 9]) if it else 300      # one stream longer than CPython's small-integer cache (257)
         idx = [rng.randrange(len(ELEMS)) for _ in range(n)]
         elems = [ELEMS[i] for i in idx]
+        if it == 1:
+            elems = list(TWINS)
+            rng.shuffle(elems)
+            n = len(elems)
         reuse = n >= 2 and rng.random() < 0.3
         if reuse:
             # what must arrive is the content at the moment each element was handed to the sender
